@@ -538,6 +538,7 @@ Definition check (c : sexp) : sexp :=
               else if negb (env_ok E && forallb (fun ad => default_ok E (snd ad)) argdefs) then v_bad "env-not-ok"
               else if negb (forallb (fun p => jval_ok (snd p)) raw && negb (has_dup (map fst raw))) then v_bad "variables-not-wf"
               else if negb (forallb (fun p => jnum_wf_b (snd p)) raw) then v_bad "json-number-not-a-canonical-binary64"
+              else if ahas n_Query E || ahas n_Res E then v_bad "name-reserved-for-the-c04-bridge-in-env"
               else if negb (forallb (fun s => ahas s T) strings) then v_bad "dt-table-incomplete"
               else if existsb (fun d => match vd_default d with Some l => match lit_vars l with [] => false | _ => true end | None => false end) defs
                    then v_bad "variable-in-default"
